@@ -436,6 +436,108 @@ def r5_cache_primitives(ctx):
                why='the value of a node depends on every component of the key (C08.R1): an entry stored for another remaining depth or window is not its value')
 
 
+PERMUTING = ('sort_by', 'sort_unstable_by', 'sort_by_key', 'sort_unstable_by_key', 'sort_by_cached_key', 'sort', 'sort_unstable', 'reverse', 'swap',
+             'deref_mut', 'as_mut_slice', 'as_mut', 'iter_mut', 'borrow_mut', 'index_mut')
+
+
+def permutation_only(facts, name, seen=None):
+    """a crate function that, wherever it passes on a `&mut` list / slice of moves, only reorders it (sort / reverse / swap, or another such
+    function): it can change the order in which the candidates are searched but not which candidates are searched"""
+    seen = seen if seen is not None else set()
+    if name in seen:
+        return True
+    seen.add(name)
+    f = facts.fns.get(name)
+    if f is None:
+        return False
+    bodies = [f] + list(facts.closures_of(name))
+    for g in bodies:
+        for b, t_ in g.calls():
+            tys = t_.get('arg_tys') or []
+            if not any(ty.startswith('&mut') and 'ChessMove' in ty for ty in tys):
+                continue
+            callee = facts.callee_name(t_) or ''
+            base = callee.rsplit('::', 1)[-1]
+            if base in PERMUTING and not callee.startswith('chess::'):
+                continue
+            if callee.startswith('chess::') and permutation_only(facts, callee, seen):
+                continue
+            return False
+    return True
+
+
+def r6_all_candidates(ctx, outs):
+    """every node searches ALL legal moves of its position: the list the move loop iterates is the generator's list for (board, side to
+    move), passed at most through reordering functions - nothing is filtered, truncated or dropped before the loop"""
+    rule = 'C08.R6-all-candidates'
+    facts = ctx.facts
+    GEN = {'chess::move_generator::MoveGenerator::generate_moves_and_lazily_update_chess_move_effects', 'chess::move_generator::MoveGenerator::generate_moves'}
+    PASS = ('iter', 'into_iter', 'deref', 'par_iter', 'as_slice', 'rev')
+
+    def source_ok(term, events):
+        """follow the iterated value back to the generator call; returns (ok, description)"""
+        t_ = term
+        for _ in range(40):
+            if t_[0] in ('ref', 'K', 'der'):
+                t_ = t_[1]
+                continue
+            if t_[0] == 'call' and t_[1] in GEN:
+                return True, show(t_)[:120]
+            if t_[0] == 'call' and t_[1].rsplit('::', 1)[-1] in PASS and len(t_[2]) == 1:
+                t_ = t_[2][0]
+                continue
+            if t_[0] == 'hv':
+                ev_ = [e for e in events if e[0] == 'call' and e[3] == t_[1]]
+                if not ev_:
+                    return False, 'value changed by an unknown call'
+                e = ev_[0]
+                if not permutation_only(facts, e[1]):
+                    return False, '%s may remove or replace candidates' % e[1]
+                pre = dict(e[6]) if len(e) > 6 else {}
+                if len(pre) != 1:
+                    return False, '%s: cannot tell which list it reorders' % e[1]
+                t_ = list(pre.values())[0]
+                continue
+            return False, 'iterates %s' % show(t_)[:160]
+        return False, 'chain too long'
+    seen_heads = {}
+    for o in outs:
+        if o.kind != 'backedge':
+            continue
+        heads = [e for e in o.events if e[0] == 'loop_head']
+        if not heads or not any(e[0] == 'call' and e[1] == MINIMAX for e in o.events):
+            continue
+        h = heads[0]
+        if h[2] in seen_heads:
+            continue
+        its = [v for v in h[3].values() if isinstance(v, tuple) and any(s[0] == 'call' and s[1].rsplit('::', 1)[-1] in ('iter', 'into_iter') for s in subterms(v))]
+        if len(its) != 1:
+            seen_heads[h[2]] = (False, 'loop iterator not recognised')
+            continue
+        seen_heads[h[2]] = source_ok(its[0], o.events)
+    for hd, (ok, desc) in sorted(seen_heads.items(), key=lambda x: str(x[0])):
+        ctx.ob(rule, MINIMAX, 'move loop iterates the whole generated list (reordering only)', ok, found=desc,
+               expected='for m in sort(generate_moves(board, turn)): nothing filtered out before the loop',
+               why='a node that leaves candidates unsearched (e.g. "redundant" under-promotions) returns a value that is not the minimax value '
+                   'whenever a dropped move is the best one (promotion to a rook where the queen stalemates)')
+    ctx.floor(rule, 'move loops of alpha_beta_minimax', len(seen_heads), 1)
+    # root: the parallel iterator runs over the generated list as well
+    import rules.c07 as c07
+    routs = c07.search_outcomes(ctx)
+    n = 0
+    okr, descr = False, 'no parallel iteration found'
+    for o in routs:
+        for e in o.events:
+            if e[0] == 'call' and e[1].rsplit('::', 1)[-1] in ('par_iter', 'into_par_iter'):
+                n += 1
+                okr, descr = source_ok(e[2][0], o.events)
+                break
+        if n:
+            break
+    ctx.ob(rule, SEARCH, 'root tasks cover the whole generated list (reordering only)', okr, found=descr,
+           expected='sort(generate_moves(board, turn)).par_iter()')
+
+
 def run(ctx):
     r5_cache_primitives(ctx)
     outs = minimax_outcomes(ctx)
@@ -445,3 +547,4 @@ def run(ctx):
     r2_duality(ctx, outs, key)
     outs_s = r3_leaf_and_root(ctx, outs, key)
     r4_root_selection(ctx, outs_s)
+    r6_all_candidates(ctx, outs)
